@@ -337,3 +337,36 @@ func TestMapKeysPermutations(t *testing.T) {
 		}
 	}
 }
+
+func TestAtomicsAreSchedulingPointsAndSynchronize(t *testing.T) {
+	res := runSeeds(t, 300, Policy{Kind: "uniform"}, func(out *[]string) {
+		var flag AtomicBool
+		var n int32
+		var wvc VC
+		Go(func() { wvc = Clock(); AddInt32(&n, 1); flag.Store(true) })
+		for !flag.Load() {
+			Sleep(time.Millisecond)
+		}
+		if !Leq(wvc, Clock()) {
+			*out = append(*out, "NOHB")
+		}
+		*out = append(*out, fmt.Sprint(LoadInt32(&n)))
+	})
+	if len(res) != 1 || res["[1]"] != 300 {
+		t.Fatalf("atomics: %v", res)
+	}
+	// lost update through non-atomic read-modify-write must be reachable (atomics yield)
+	lost := runSeeds(t, 300, Policy{Kind: "uniform"}, func(out *[]string) {
+		var n AtomicInt32
+		var wg WaitGroup
+		for i := 0; i < 2; i++ {
+			wg.Add(1)
+			Go(func() { v := n.Load(); n.Store(v + 1); wg.Done() })
+		}
+		wg.Wait()
+		*out = append(*out, fmt.Sprint(n.Load()))
+	})
+	if lost["[1]"] == 0 || lost["[2]"] == 0 {
+		t.Fatalf("atomic interleavings not explored: %v", lost)
+	}
+}
